@@ -83,6 +83,12 @@ func VerifC02Cancel() {
 	dst.hook = hook
 	root := verifrt.Choice(K)
 	opts := CopyGraphOptions{Concurrency: 1 + verifrt.Choice(verifrt.Param("maxconc", 2))}
+	if verifrt.Bool() {
+		// cancelled before the call starts (no storage operation observes it)
+		cancelled = true
+		cancel()
+		verifrt.Event("cancelled before the call")
+	}
 	err := CopyGraph(ctx, src, dst, nodes[root].desc, opts)
 	assertLinkClosed(inner, nodes, "C02.cancel.closed-after")
 	if err == nil {
